@@ -42,6 +42,9 @@ ObjCases == {[kind |-> "obj", code |-> Pinned.objecttype_enum[i][1], name |-> Pi
 AttrCases == {[kind |-> "attr", code |-> 0, name |-> a[1], dir |-> 0, enc |-> x, expect |-> "typed"] : a \in PinAttrs, x \in Encodings}
              \cup {[kind |-> "attr", code |-> t, name |-> n, dir |-> 0, enc |-> x, expect |-> "opaque"] :
                      n \in {"x-custom", "y-custom", "Arbitrary Attribute", "", "x-"}, t \in TtlvTypes, x \in Encodings}
+             \* item types the library does not know (0x0B is Date-Time Extended of KMIP 2.x, 0x0C, 0x00): an opaque position either rejects the
+             \* message or hands the item on exactly as it came
+             \cup {[kind |-> "attr", code |-> t, name |-> n, dir |-> 0, enc |-> "ttlv", expect |-> "opaque-or-error"] : n \in {"x-custom"}, t \in {0, 11, 12}}
              \* names that differ from a standard one only by letter case are NOT standard attributes
              \cup {[kind |-> "attr", code |-> t, name |-> a[1], dir |-> 1, enc |-> x, expect |-> "opaque"] : a \in PinAttrs, t \in {2, 7}, x \in {"ttlv"}}
 \* where the type of a carried object comes from: the payload's Object Type field (Get / Export responses, Register request) or, when the
@@ -61,6 +64,6 @@ Init == c \in Cases
 Next == UNCHANGED c
 Spec == Init /\ [][Next]_c
 TablesOK == TablesPinned /\ ClassesPartition
-CaseOK == c.expect \in {"typed", "opaque", "error"}
+CaseOK == c.expect \in {"typed", "opaque", "error", "opaque-or-error"}
 Emit == PrintT(<<"CASE", ToJson(c)>>)
 =============================================================================
